@@ -650,7 +650,7 @@ impl Engine for E3 {
         serde_json::json!({
             "real": ["cadence/src/sinks/queuing.rs in full: QueuingMetricSinkBuilder, QueuingMetricSink (emit, clone, drop, counters), Worker (submit/run/stop), Sentinel (respawn while unwinding), WorkerStats"],
             "pass_through_shims": ["thread::spawn (a real OS thread that runs only when the simulator schedules it; real unwinding and destructors)", "crossbeam channel for capacity >= 1 and unbounded (real crossbeam queue; only waiting is simulated)", "AtomicU64/AtomicBool (real atomics, a scheduling point before each operation)"],
-            "stub": ["the wrapped sink (scripted outcome per invocation: ok / io error / panic / slow / stall on a gate)", "capacity-0 rendezvous channel (hand-written model; excluded from every oracle except no-panic)"]
+            "stub": ["the wrapped sink (scripted outcome per invocation: ok / io error / panic / slow / stall on a gate)", "capacity-0 rendezvous channel (hand-written model; judged for everything except C10's occupancy clauses)"]
         })
     }
 
